@@ -51,6 +51,8 @@ def parseOp : List String → Option Op
   | ["fs_copyfile", v] => some (.fsCopyfile v)
   | ["fs_copyfile", v, "async"] => some (.fsCopyfile v)
   | ["fs_open", v, "async"] => some (.fsOpen v)
+  | ["nodelay", h] => (hid? h).map (fun x => .sockopt x false)
+  | ["keepalive", h] => (hid? h).map (fun x => .sockopt x true)
   | ["flood", h, n] => do some (.flood (← hid? h) (← n.toNat?))
   | ["util", u] => if ["cpu_info", "exepath", "memory", "uptime", "ifaddrs", "random", "passwd", "scandir", "readdir", "stat",
                        "realpath", "mkdtemp"].contains u then some .util else none
@@ -97,7 +99,7 @@ def hsLine (s : St) : String :=
         | .signal => "signal" | .fsev => "fsev" | .proc => "proc"
       let st := match h.st with | .dead => "dead" | .live => "live" | .closing => "closing" | .closed => "closed"
       let b (x : Bool) : String := if x then "1" else "0"
-      s!" {k},{st},{b h.listening},{b h.bound},{b h.ipc},{b h.readable},{b h.connected},{h.pending},{b h.delayed},{b h.reading},{h.inflight.length}"))
+      s!" {k},{st},{b h.listening},{b h.bound},{b h.ipc},{b h.readable},{b h.connected},{h.pending},{b h.delayed},{b h.reading},{h.inflight.length},{b (h.nodelay || h.keepalive)}"))
     ++ s!" | loop={if s.loopOk then 1 else 0}"
 
 def stepLineGen (d : DS) (ws : List String) : DS × List String :=
